@@ -721,6 +721,16 @@ def call_extension_obligations(repo, chk, rule):
                 want_kind = "Element" if k.arg == "captures" else "Call"
                 kinds_ok, what = None, "?"
                 if added is not None:
+                    from ..astq import returned_list_sources
+                    srcs_ = returned_list_sources(fi.node, value=added)
+                    if srcs_:
+                        # every contribution is one item of the evaluated argument list, admitted under isinstance(item, <kind>)
+                        def admitted(cond_text, item):
+                            return f"isinstance({item}, {want_kind})" in [c.strip() for c in cond_text.split(" and ")]
+                        if all(kind_ == "the item" and admitted(c_, t_) for c_, l_, kind_, t_ in srcs_):
+                            kinds_ok = True
+                            what = f"items admitted by isinstance(.., {want_kind})"
+                if added is not None and kinds_ok is None:
                     src = added
                     if isinstance(src, ast.Name):
                         defs = [a for a in walk_local(fi.node) if isinstance(a, ast.Assign) and len(a.targets) == 1 and is_name(a.targets[0], src.id)]
